@@ -28,7 +28,7 @@ CAP_S = {'quick': 140, 'thorough': 2400}
 MAX_SHARDS = 3   # fork throughput of this sandbox (~80/s) does not scale with processes
 RULE = ('case = history of <=6 BeartypeConf(**kw) calls + a final one, each kw from per-option pools '
         '(valid / invalid / look-alike), run in a forked pristine process and compared with a fork that '
-        'runs only the final call; non-trivial = history holds a value that is == but not identical '
+        'runs only the final call; the three deprecated option spellings are part of the domain (modelled as the option they were renamed to); non-trivial = history holds a value that is == but not identical '
         '(or of another type) to a later one for the same option, or the final call sets >=3 non-default options. In addition the '
         'finite part of the domain is enumerated, not sampled: every (option, pool value incl. falsy junk) pair alone in a fresh '
         'process and every ordered pair of distinct valid values of one option back to back (quick and thorough), and every invalid / look-alike value right after every valid one of the same option (thorough)')
